@@ -16,6 +16,9 @@ static thread_local std::mt19937_64 eng{sSeed};
 void SetSeed(std::uint32_t new_seed) {
   sSeed = new_seed;
   eng.seed(new_seed);
+#if YACLIB_FAULT == 2
+  sRandCount = 0;
+#endif
 }
 
 std::uint32_t GetSeed() {
@@ -46,7 +49,7 @@ std::uint64_t GetRandCount() {
 
 void ForwardToRandCount([[maybe_unused]] std::uint64_t random_count) {
 #if YACLIB_FAULT == 2
-  for (std::uint64_t i = 0; i != random_count; ++i) {
+  while (sRandCount < random_count) {
     GetRandNumber(1);
   }
 #endif
